@@ -20,6 +20,11 @@ F7 = ":F7:canonical-min-5byte-prefix"      # prefixed with the property id
 F8 = "C15:F8:serialized-length-atom-u32-overflow"
 
 
+MEMFN = {"de.mem_stream": "node_from_stream", "de.mem_bytes": "node_from_bytes", "triples.mem": "parse_triples",
+         "hash.mem": "tree_hash_from_stream", "canon.mem": "is_canonical_serialization",
+         "lenb.mem_trusted": "serialized_length_from_bytes_trusted", "lenb.mem_untrusted": "serialized_length_from_bytes"}
+
+
 def _is_f8_size(n):
     return (1 << 32) - 5 <= n < (1 << 32)
 
@@ -181,7 +186,7 @@ def _s2i(prop, out, m):
         elif kind == "bytes":
             canonical = c["ok"] and c["canon"]
             if prop == "C16":
-                ok = w in ("de", "triples", "hash") or (w == "canon" and c["ok"])
+                ok = w in ("de", "triples", "hash") or (w == "canon" and c["ok"]) or w.startswith(("mem:", "crash"))
             else:
                 ok = w == "reser" or (w in ("canon", "lenb", "de") and canonical)
             (viol if ok else drift).append(w)
@@ -211,6 +216,18 @@ def _s2i(prop, out, m):
             sig = "C29:limit:classic:%s" % _limit_class(c["ok"], rr, same, c["where"])
         desc = "node_to_bytes_limit(L=%d) on %s: expected %s, observed %s (limit falls on %s of %d bytes)" % (
             c["L"], C.tree_hex(c["t"])[:80], "ok" if c["ok"] else c["err"], rr, c["where"], c["full_len"])
+    elif kind == "bytes" and prop == "C16" and any(w.startswith(("mem:", "crash")) for w in viol):
+        fns = sorted({w[4:] for w in viol if w.startswith("mem:")} |
+                     {x.get("fn", "unknown") for k, x in obs.items() if k.startswith("crash_")})
+        if any(w == "crash" for w in viol) and not any(x.get("overalloc") for k, x in obs.items() if k.startswith("crash_")):
+            sig = "C16:abort:%s:%s" % ("+".join(fns), _h(c["b"]))
+            desc = "the process died while %s ran on input %s" % (",".join(fns), bytes(c["b"]).hex())
+        else:
+            sig = "C16:overalloc:" + "+".join(fns)
+            desc = "%s on the %d-byte input %s asks for more memory than the specification allows (bound %d bytes): %s" % (
+                ",".join(fns), len(c["b"]), bytes(c["b"]).hex(), c.get("mb", 0),
+                json.dumps({k: (v.get("mem") or {kk: vv for kk, vv in v.items() if kk.startswith("mem_")} or v.get("msg", "")[-120:])
+                            for k, v in obs.items()})[:300])
     elif kind == "wprefix" and viol == ["wprefix.canon"] and c["canon"] and \
             _is_f7_sizes(c["p"], C.le_n(c["n"])) and obs["big"].get("canon") is False:
         sig = prop + F7
@@ -281,7 +298,7 @@ def _i2s(prop, out, m, e):
             (viol if ok else drift).append(w)
         elif prop == "C16":
             ok = fam in ("de", "triples", "hash") or (w == "canon.definition" and dec_ok) or \
-                w in ("big.de", "big.hash", "big.triples", "big.canon")
+                w in ("big.de", "big.hash", "big.triples", "big.canon") or ".mem" in w or w == "crash"
             (viol if ok else drift).append(w)
         else:
             drift.append(w)
@@ -297,6 +314,22 @@ def _i2s(prop, out, m, e):
         sig = prop + F7
         desc = "is_canonical_serialization rejects the canonical serialization of a %d-byte atom (prefix %s)" % (
             C.le_n(e["have"]), bytes(e["p"]).hex())
+    elif prop == "C16" and (ev == "crash" or any(".mem" in w for w in viol)):
+        if ev == "crash":
+            fns = [info.get("fn", "unknown")]
+            over = info.get("overalloc", False)
+        else:
+            fns = sorted({MEMFN.get(w, w) for w in viol if ".mem" in w})
+            over = True
+        b = (e or {}).get("b", [])
+        if over:
+            sig = "C16:overalloc:" + "+".join(fns)
+            mem = {k: v for k, v in (e or {}).items() if k.startswith("mem") or k == "msg"}
+            desc = "%s on the %d-byte input %s asks for more memory than the specification allows (bound %s bytes): %s" % (
+                ",".join(fns), len(b), bytes(b[:40]).hex(), info.get("mem_bound", "1 GiB cap"), json.dumps(mem)[:200])
+        else:
+            sig = "C16:abort:%s:%s" % ("+".join(fns), _h(b))
+            desc = "the process died while %s ran on input %s: %s" % (",".join(fns), bytes(b[:40]).hex(), (e or {}).get("msg", "")[-160:])
     elif ev == "bigser" and viol == ["bigser.cache"] and e and _is_f8_size(C.le_n(e["n"])) and prop == "C15":
         sig = F8
         desc = "serialized_length_atom (ObjectCache serialized length) overflows u32 for an atom of %d bytes: %s" % (
